@@ -70,17 +70,27 @@ func (c *wsConn) tryDelete(s *Subscription) {
 	s.traverse(gcStateDelete, func(s *Subscription, state gcState) gcState {
 		r := refs[s.RID()]
 
+		// A subscription referenced by one that is kept as sent, is kept as
+		// sent as well, even if it was first reached through one that is not.
+		if state == gcStateKeep {
+			if r.state == gcStateKeep {
+				return gcStateStop
+			}
+			r.state = gcStateKeep
+			return gcStateKeep
+		}
+
 		if r.state >= gcStateKeep {
 			return gcStateStop
 		}
 
-		if r.indirect > 0 || state == gcStateKeep {
+		if r.indirect > 0 || state == gcStateUnsend {
 			if sent && r.indirectsent == 0 {
 				r.state = gcStateUnsend
 			} else {
 				r.state = gcStateKeep
 			}
-			return gcStateKeep
+			return r.state
 		}
 
 		if r.state != gcStateNone {
